@@ -531,3 +531,26 @@ def linear_cmp(atom, pol: bool = True, integers: bool = True):
         const -= 1
         op = ">="
     return {a: c for a, c in coeffs.items() if c != 0}, const, op
+
+
+def value_alts(t) -> set:
+    """Normalised alternatives of a value, whatever the spelling of the choice (if/else
+    assignment, conditional expression, early return)."""
+    from .pattern import norm
+    from .terms import alts, ifexp_to_phi
+
+    return {norm(b) for b in alts(ifexp_to_phi(t))}
+
+
+def tuple_components(t, n: int):
+    """Per-position alternatives of an n-tuple value (a tuple of merged values, or a merge of
+    tuples); None when some alternative is not an n-tuple."""
+    from .terms import alts, ifexp_to_phi
+
+    comps = [set() for _ in range(n)]
+    for a in alts(ifexp_to_phi(t)):
+        if a[0] != "tuple" or len(a[1]) != n:
+            return None
+        for i in range(n):
+            comps[i] |= value_alts(a[1][i])
+    return comps
